@@ -18,7 +18,14 @@ use serde::{de::DeserializeOwned, Deserialize, Serialize};
 use serde_json::{json, Value};
 
 pub const SHARDS: usize = 16;
-pub const VERIF_DIR: &str = "/verif";
+/// root of the verification tree (evidence/, replays/, known_findings.json); VERIF_DIR overrides
+pub fn verif_dir() -> String {
+    std::env::var("VERIF_DIR").unwrap_or_else(|_| "/verif".to_string())
+}
+
+pub fn vpath(rel: &str) -> String {
+    format!("{}/{}", verif_dir(), rel)
+}
 
 // ------------------------------------------------------------------------------------------
 // real (non-interposed) monotonic clock: the harness binary interposes clock_gettime for the
@@ -105,7 +112,8 @@ pub struct Rec {
     nontrivial: bool,
     discard: Option<String>,
     note: Option<String>,
-    /// extra distinctness key (defaults to the serialised case)
+    counters: Vec<(String, u64)>,
+    /// true when replaying a single saved case (known-finding exclusion is off)
     pub strict: bool,
 }
 
@@ -129,6 +137,10 @@ impl Rec {
     }
     pub fn wants_note(&self) -> bool {
         self.note.is_none()
+    }
+    /// free-form counter, summed over the run and reported under coverage.counters
+    pub fn count(&mut self, key: impl Into<String>, n: u64) {
+        self.counters.push((key.into(), n));
     }
 }
 
@@ -184,6 +196,7 @@ pub struct Stats {
     pub known_examples: BTreeMap<String, Value>,
     pub samples: Vec<Value>,
     pub exhaustive: Option<bool>,
+    pub counters: BTreeMap<String, u64>,
     pub extra: BTreeMap<String, Value>,
 }
 
@@ -196,6 +209,9 @@ impl Stats {
         }
         for (k, v) in o.discarded {
             *self.discarded.entry(k).or_default() += v;
+        }
+        for (k, v) in o.counters {
+            *self.counters.entry(k).or_default() += v;
         }
         for (k, v) in o.excluded_known {
             *self.excluded_known.entry(k).or_default() += v;
@@ -449,9 +465,9 @@ fn write_evidence_hang(prop: &str, sub: &str, fail: &Fail) -> std::io::Result<()
                      "samples": [format!("{sub}: {}", fail.msg)]},
         "wall_s": 0.0, "violations": 1
     });
-    std::fs::create_dir_all(format!("{VERIF_DIR}/evidence"))?;
+    std::fs::create_dir_all(vpath(&format!("evidence")))?;
     std::fs::write(
-        format!("{VERIF_DIR}/evidence/{prop}.json"),
+        vpath(&format!("evidence/{prop}.json")),
         serde_json::to_vec_pretty(&ev).unwrap(),
     )
 }
@@ -462,7 +478,7 @@ fn write_evidence_hang(prop: &str, sub: &str, fail: &Fail) -> std::io::Result<()
 pub fn write_replay(prop: &str, sub: &str, fail: &Fail, case: &Value, dir: Option<&Path>) -> PathBuf {
     let dir = dir
         .map(|d| d.to_path_buf())
-        .unwrap_or_else(|| PathBuf::from(format!("{VERIF_DIR}/replays/{prop}/found")));
+        .unwrap_or_else(|| PathBuf::from(vpath(&format!("replays/{prop}/found"))));
     let _ = std::fs::create_dir_all(&dir);
     let body = serde_json::to_string(case).unwrap_or_default();
     let h = fixed_hash(&[sub.as_bytes(), fail.sig.as_bytes(), body.as_bytes()]);
@@ -596,6 +612,9 @@ fn eval_case<T: Serialize>(
         st.evaluations += 1;
         for c in rec.classes.drain(..) {
             *st.classes.entry(format!("{sub}/{c}")).or_default() += 1;
+        }
+        for (k, n) in rec.counters.drain(..) {
+            *st.counters.entry(format!("{sub}/{k}")).or_default() += n;
         }
         if let Some(d) = rec.discard.take() {
             *st.discarded.entry(format!("{sub}/{d}")).or_default() += 1;
@@ -851,7 +870,7 @@ pub struct Check {
 }
 
 fn load_known(prop: &str) -> Vec<KnownFinding> {
-    let p = format!("{VERIF_DIR}/known_findings.json");
+    let p = vpath(&format!("known_findings.json"));
     let Ok(txt) = std::fs::read_to_string(&p) else {
         return vec![];
     };
@@ -923,7 +942,7 @@ pub fn run_check(check: Check, cli: &Cli) -> i32 {
     let mut replay_count = 0u64;
 
     // ---- replay tier: every committed regression file -----------------------------------
-    let rdir = PathBuf::from(format!("{VERIF_DIR}/replays/{}", check.id));
+    let rdir = PathBuf::from(vpath(&format!("replays/{}", check.id)));
     let mut files: Vec<PathBuf> = std::fs::read_dir(&rdir)
         .map(|d| d.filter_map(|e| e.ok().map(|e| e.path())).collect())
         .unwrap_or_default();
@@ -1035,6 +1054,7 @@ pub fn run_check(check: Check, cli: &Cli) -> i32 {
         coverage.insert("samples".into(), json!(total.samples));
         coverage.insert("classes".into(), json!(total.classes));
         coverage.insert("discarded".into(), json!(total.discarded));
+        coverage.insert("counters".into(), json!(total.counters));
         coverage.insert("excluded_known".into(), json!(total.excluded_known));
         coverage.insert("replayed_regressions".into(), json!(replay_count));
         coverage.insert("per_sub".into(), json!(per_sub));
@@ -1056,8 +1076,8 @@ pub fn run_check(check: Check, cli: &Cli) -> i32 {
             "wall_s": wall,
             "violations": violations.len(),
         });
-        let _ = std::fs::create_dir_all(format!("{VERIF_DIR}/evidence"));
-        let path = format!("{VERIF_DIR}/evidence/{}.json", check.id);
+        let _ = std::fs::create_dir_all(vpath(&format!("evidence")));
+        let path = vpath(&format!("evidence/{}.json", check.id));
         if let Err(e) = std::fs::write(&path, serde_json::to_vec_pretty(&ev).unwrap()) {
             eprintln!("cannot write {path}: {e}");
             return 2;
